@@ -34,6 +34,7 @@ def __i{name}__(self, other):
             other_rows = [SparseVector.from_dict({{i: 1. for i in row.set}}, row.size) for row in other_rows]
         if len(other_rows) == 1:
             other = other_rows[0]
+            if any([i is other for i in rows]): other = other.copy() # operand is a row of the target
             for i in rows: i._i{name}_sparse(other)
         elif len(rows) != len(other_rows):
             raise ValueError('shape mismatch between arrays')
@@ -47,7 +48,9 @@ def __i{name}__(self, other):
                 raise ValueError('cannot cast boolean to float')
         elif other_dtype is bool:
             other = SparseVector.from_dict({{i: 1. for i in other.set}}, other.size)
-        for i in self.rows: i._i{name}_sparse(other) 
+        rows = self.rows
+        if any([i is other for i in rows]): other = other.copy() # operand is a row of the target
+        for i in rows: i._i{name}_sparse(other) 
     else:
         other, ndim, _ = reduce_ndim(other)
         if ndim == 0:
